@@ -125,10 +125,9 @@ func ruleAcyclicView(rule string) RuleFn {
 func ruleFlagSound(rule string) RuleFn {
 	return func(c *an.Ctx) {
 		c.Rule(rule, "flag soundness: every store of true into X.isVerifiedAcyclic (anywhere in the module) is dominated by the ok edge of graph.IsAcyclic(X.gh) for the same X; in Scope.provide every path from the update of Scope.providers to a nil return passes a complete loop over appendSubscopes(home) whose every iteration first stores false into the element's isVerifiedAcyclic and whose only early exits are error returns (so any later Invoke re-verifies, with or without deferral); no other function writes the flag")
-		n := 0
+		nFalse := 0
 		for _, fn := range c.P.Funcs {
 			for _, st := range an.StoresToField(fn, "Scope", "isVerifiedAcyclic") {
-				n++
 				nm := an.ShortName(fn)
 				addr := an.Norm(st.Addr)
 				sc := strings.TrimSuffix(strings.TrimPrefix(addr, "&"), ".isVerifiedAcyclic")
@@ -142,13 +141,15 @@ func ruleFlagSound(rule string) RuleFn {
 						c.OK(rule, cons, sc, st)
 					}
 				case "false":
+					nFalse++
 					c.OK(rule, "isVerifiedAcyclic = false in "+nm, "conservative", st)
 				default:
 					c.Bad(rule, "isVerifiedAcyclic written in "+nm, "non-constant value "+an.Norm(st.Val)+" stored into the verified flag", st, nil)
 				}
 			}
 		}
-		c.Floor(rule, "stores of Scope.isVerifiedAcyclic", n, 3)
+		// a missing "= true" only costs a repeated verification; what must exist is the reset
+		c.Floor(rule, "resets of Scope.isVerifiedAcyclic", nFalse, 1)
 		fn := c.Fn(rule, "(*dig.Scope).provide")
 		if fn == nil {
 			return
